@@ -69,7 +69,8 @@ pub enum Probe {
     CodeInfo { code_id: u64 },
     Custom { n: u64 },
     /// iteration over the contract's own storage
-    OwnRange { start: Option<Binary>, end: Option<Binary>, desc: bool },
+    /// `what`: 0 = Storage::range, 1 = Storage::range_keys, 2 = Storage::range_values
+    OwnRange { start: Option<Binary>, end: Option<Binary>, desc: bool, #[serde(default)] what: u8 },
     OwnGet { key: Binary },
     /// an arbitrary serialized QueryRequest (used by the routing engine)
     RawQuery { request: Binary },
@@ -295,13 +296,14 @@ fn run_probe<Q: CustomQuery>(deps: &Deps<Q>, env: &Env, p: &Probe) -> String {
                 _ => "err".to_string(),
             }
         }
-        Probe::OwnRange { start, end, desc } => {
+        Probe::OwnRange { start, end, desc, what } => {
             let order = if *desc { Order::Descending } else { Order::Ascending };
-            let v: Vec<String> = deps
-                .storage
-                .range(start.as_ref().map(|b| b.as_slice()), end.as_ref().map(|b| b.as_slice()), order)
-                .map(|(k, v)| format!("{}={}", crate::core::hex(&k), crate::core::hex(&v)))
-                .collect();
+            let (st, en) = (start.as_ref().map(|b| b.as_slice()), end.as_ref().map(|b| b.as_slice()));
+            let v: Vec<String> = match what {
+                1 => deps.storage.range_keys(st, en, order).map(|k| crate::core::hex(&k)).collect(),
+                2 => deps.storage.range_values(st, en, order).map(|v| crate::core::hex(&v)).collect(),
+                _ => deps.storage.range(st, en, order).map(|(k, v)| format!("{}={}", crate::core::hex(&k), crate::core::hex(&v))).collect(),
+            };
             format!("ok:{:?}", v)
         }
         Probe::OwnGet { key } => format!("ok:{:?}", deps.storage.get(key.as_slice()).map(|v| crate::core::hex(&v))),
